@@ -62,8 +62,8 @@ if __name__ == '__main__':
             print('%s exit=%d' % (i, rc))
             for k in keys:
                 print('   ' + k[:300])
-            if rc == 2:
-                print(out[-1500:])
+            if rc == 2 or (rc != 0 and not keys):
+                print(out[-2500:])
     finally:
         shutil.rmtree(d, ignore_errors=True)
         import glob, hashlib
